@@ -42,6 +42,7 @@ NAME_TAGS = {"valid255", "invalid256", "unit63", "unit64", "devname", "devunit",
 VIEW_TAGS = {"TwoMatch", "FirstOnly", "SecondOnly", "NoneOfTwo", "Drop", "ObsFilter", "KeyView", "KeyNul",
              "EmptyFilter", "VersionMiss", "SchemaMiss", "MeterNameMiss", "TypeMiss", "UnitMiss", "PrefixHit",
              "SuffixHit", "ExactMiss", "Rename", "Default"}
+RX_LABELS = {"alt", "altone", "altsub", "opt", "plus", "star", "cls", "any", "escdot", "anch", "rep"}
 SCOPE_TAGS = {"enabled", "disabled", "default", "second", "third", "shadowed", "byname", "bycond"}
 SCOPE_WITS = {"SameTwice", "DisabledLogTwice", "EnabledLogTwice", "Mixed", "EmitOldHandle"}
 
@@ -260,6 +261,9 @@ def views_jobs(ctx):
         Job("views-mc-shape", "Views", views_cfg("TypesAll", "Pats3" if thorough else "Pats2",
                                                  "UnitSel2" if thorough else "UnitSelAny", "MSelAny", "ShapesAll", "IName1",
                                                  "IUnit1", "Meter1", "AttrsAll", 1, 1, False, VIEW_INVS), workers=3),
+        # regular-expression name selectors, one operator alone per pattern: model checking + sweep export in one run
+        Job("views-mc-regex", "Views", views_cfg("Types1", "PatsRx", "UnitSelAny", "MSelAny", "Shape1", "INamesRx", "IUnit1",
+                                                 "Meter1", "Attrs1", 1, 1, False, VIEW_INVS + " EmitSweep")),
         # sweep exports: every selector / every shape / every pair over a product domain
         Job("views-g-select", "Views", views_cfg(t2, "PatsAll", "UnitSelAll", "MSelsAll", "Shape1", "INamesAll",
                                                  "IUnitsAll", "MetersAll", "Attrs1", 1, 0, False, "EmitSweep")),
@@ -272,7 +276,7 @@ def views_jobs(ctx):
         Job("views-g-pairs-sim", "Views", views_cfg("TypesAll", "PatsAll", "UnitSel2", "MSels4", "Shapes2", "INamesAll",
                                                     "IUnits2", "Meters2", "Attrs1", 2, 0, False, "EmitSweep"),
             simulate={"num": 600 if thorough else 120, "depth": 3}, seed=ctx.seed + 19),
-        Job("views-g-beh-sim", "Views", views_cfg("Types3", "Pats3", "UnitSel2", "MSels4", "ShapesAll", "INamesAll",
+        Job("views-g-beh-sim", "Views", views_cfg("Types3", "PatsMix", "UnitSel2", "MSels4", "ShapesAll", "INamesMix",
                                                   "IUnits2", "MetersAll", "AttrsAll", 2, 3, True, "EmitAll"),
             simulate={"num": 1500 if thorough else 250, "depth": 7}, seed=ctx.seed + 23),
     ]
@@ -281,8 +285,8 @@ def views_jobs(ctx):
 
 def views_replay(ctx, exe, results):
     thorough = ctx.tier == "thorough"
-    for n in ("views-mc-pairs", "views-mc-select", "views-mc-shape", "views-g-select", "views-g-shape", "views-g-pairs",
-              "views-g-pairs-sim", "views-g-beh-sim"):
+    for n in ("views-mc-pairs", "views-mc-select", "views-mc-shape", "views-mc-regex", "views-g-select", "views-g-shape",
+              "views-g-pairs", "views-g-pairs-sim", "views-g-beh-sim"):
         expect_status(results[n], n, "ok")
     cov = results["views-mc-pairs"].coverage
     for a in ("AddView", "CreateInst", "Collect"):
@@ -292,6 +296,7 @@ def views_replay(ctx, exe, results):
     expect = {}      # id -> list of (exp, alts) per instrument
     seen = set()
     tags = set()
+    rxtags = set()
 
     def add(views, insts, shared, src):
         key = canon([views, [x["i"] for x in insts], shared])
@@ -303,7 +308,8 @@ def views_replay(ctx, exe, results):
         expect[i] = insts
         for x in insts:
             tags.update(x.get("tags", []))
-    for n in ("views-g-select", "views-g-shape", "views-g-pairs", "views-g-pairs-sim"):
+            rxtags.update(tuple(t) for t in x.get("rxtags", []))
+    for n in ("views-mc-regex", "views-g-select", "views-g-shape", "views-g-pairs", "views-g-pairs-sim"):
         got = results[n].printed("BEHS")
         if not got:
             raise Broken("%s printed no sweep lines" % n)
@@ -319,6 +325,9 @@ def views_replay(ctx, exe, results):
         raise Broken("views-g-beh-sim printed no behaviour")
     if tags != VIEW_TAGS:
         raise Broken("vacuity: the replayed view cases miss the situations %s" % sorted(VIEW_TAGS - tags))
+    want_rx = {(h, l) for h in ("hit", "miss") for l in RX_LABELS}
+    if not want_rx <= rxtags:
+        raise Broken("vacuity: regular-expression selectors never %s" % sorted(want_rx - rxtags))
     inst = 2 if thorough else 1
     out = run_harness_chunks(ctx, exe, "views", [json.dumps({k: l[k] for k in ("id", "shared", "views", "insts")})
                                                    for l in lines], inst, "views", nproc=6)
@@ -355,6 +364,7 @@ def views_replay(ctx, exe, results):
     ctx.extra["views_machine_behaviours"] = nbeh
     ctx.extra["views_outcomes"] = stats
     ctx.extra["views_tags_seen"] = sorted(tags)
+    ctx.extra["views_regex_operator_cases"] = sorted("%s:%s" % t for t in rxtags)
     mid = next(l for l in lines if l["src"] == "views-g-beh-sim")
     ctx.sample({"kind": "Views.tla behaviour (TLC) replayed on MeterProvider/ViewRegistry/Meter",
                 "views": mid["views"], "instruments": [{"i": x["i"], "exp": x["exp"]} for x in expect[mid["id"]]][:3]})
